@@ -67,3 +67,36 @@ pub async fn handshake_outbound(ctx: &ctx::Ctx, cfg: &Config, genesis: validator
 pub fn handshake_bytes(session_id: node::Signed<node::SessionId>, genesis: validator::GenesisHash, is_static: bool) -> Vec<u8> {
     zksync_protobuf::encode(&handshake::Handshake { session_id, genesis, is_static, build_version: None })
 }
+
+// ---------------------------------------------------------------------------------------------
+// Dialling a running node (admission at the level of the real listener / pools)
+
+/// An authenticated connection to a node's listener, as the dialling side holds it.
+pub struct Dialed(pub(crate) crate::noise::Stream);
+
+impl Dialed {
+    /// After a successful handshake the node either registers the connection in its pool and starts its RPC service
+    /// (the first thing it does is to send the multiplexer handshake) or refuses it and closes the stream.
+    /// Returns true iff data arrives, false on end of stream / error.
+    pub async fn admitted(&mut self, ctx: &ctx::Ctx) -> ctx::OrCanceled<bool> {
+        let mut b = [0u8; 1];
+        Ok(matches!(zksync_concurrency::io::read(ctx, &mut self.0, &mut b).await?, Ok(n) if n > 0))
+    }
+}
+
+/// Testonly node config with a freshly reserved listener address.
+pub fn test_config(key: node::SecretKey) -> Config {
+    crate::testonly::make_config(key)
+}
+
+/// Dials the gossip endpoint at `addr` as `me` and performs the gossip handshake.
+pub async fn dial(ctx: &ctx::Ctx, addr: std::net::SocketAddr, me: &Config, genesis: validator::GenesisHash, peer: &node::PublicKey) -> Result<Dialed, String> {
+    let mut stream = crate::preface::connect(ctx, addr, crate::preface::Endpoint::GossipNet).await.map_err(|e| format!("preface: {e:?}").lines().next().unwrap_or("").to_string())?;
+    handshake::outbound(ctx, me, genesis, &mut stream, peer).await.map_err(|e| format!("handshake: {e}").lines().next().unwrap_or("").to_string())?;
+    Ok(Dialed(stream))
+}
+
+/// Keys currently registered in the node's inbound gossip pool.
+pub fn inbound_keys(net: &crate::Network) -> Vec<node::PublicKey> {
+    net.gossip.inbound.current().keys().cloned().collect()
+}
